@@ -36,7 +36,7 @@ namespace BitSerializer
 
 namespace BitSerializer::Convert::Detail
 {
-	constexpr size_t UtcBufSize = 32;
+	constexpr size_t UtcBufSize = 40;
 	constexpr int DaysInMonth[12] = { 31, 29, 31, 30, 31, 30, 31, 31, 30, 31, 30, 31 };
 
 	template <class TFractions = std::chrono::nanoseconds,
@@ -375,8 +375,9 @@ namespace BitSerializer::Convert::Detail
 			}
 			// At least four digits of year are required, the minus sign is not counted
 			const int yearWidth = utc.Year < 0 ? 5 : 4;
-			const size_t outSize = snprintf(pos, endPos - pos, "%0*" PRId64 "-%02d-%02dT%02d:%02d:%02d", yearWidth, utc.Year, utc.Month, utc.Day, utc.Hour, utc.Min, utc.Sec);
-			if (outSize > 0)
+			const int outSize = snprintf(pos, endPos - pos, "%0*" PRId64 "-%02d-%02dT%02d:%02d:%02d", yearWidth, utc.Year, utc.Month, utc.Day, utc.Hour, utc.Min, utc.Sec);
+			// The result of snprintf() is the required size, which can be larger than the passed buffer
+			if (outSize > 0 && outSize < endPos - pos)
 			{
 				pos += outSize;
 				if (utc.SecFractions) {
